@@ -1,11 +1,11 @@
 package pc
 
 import (
-	"sort"
 	"fmt"
 	"go/ast"
 	"go/token"
 	"go/types"
+	"sort"
 	"strings"
 )
 
@@ -206,7 +206,7 @@ func (c *cliClient) compileOK(st *State) bool {
 	}
 	return st.Ext("compileres") == "nil"
 }
-func (c *cliClient) Stmt(e *Engine, st *State, _ ast.Stmt) *State     { return c.noteReadErr(st) }
+func (c *cliClient) Stmt(e *Engine, st *State, _ ast.Stmt) *State { return c.noteReadErr(st) }
 
 func (c *cliClient) noteReadErr(st *State) *State {
 	k := st.Ext("scanerr")
@@ -676,14 +676,20 @@ func ruleC16(p *Program, r *Run) {
 // C16/exit: main turns a non-nil error into a non-zero exit status, and RunE returns run's error.
 type exitClient struct {
 	BaseClient
-	fn      string
-	errKey  string
+	fn       string
+	errKey   string
 	runFuncs map[*types.Func]bool // run and the function it hands its work to
 }
 
 func (c *exitClient) PostAssign(e *Engine, st *State, lhs, rhs []ast.Expr, _ ast.Stmt) *State {
 	if len(rhs) == 1 && len(lhs) == 1 {
 		if call, ok := ast.Unparen(rhs[0]).(*ast.CallExpr); ok {
+			// w := bufio.NewWriter(...): what run writes through it only reaches the output when it is flushed
+			if f := Callee(e.Info, call); f != nil && strings.HasPrefix(f.FullName(), "bufio.NewWriter") {
+				if k := e.CanonSt(st, lhs[0]); k.OK {
+					return st.WithExt("bufw:"+k.Key, "1")
+				}
+			}
 			if sel, ok := ast.Unparen(call.Fun).(*ast.SelectorExpr); ok && sel.Sel.Name == "ExecuteContext" {
 				if k := e.CanonSt(st, lhs[0]); k.OK {
 					return st.WithExt("execerr", k.Key)
@@ -710,6 +716,21 @@ func (c *exitClient) PreAssign(e *Engine, st *State, lhs, rhs []ast.Expr, _ ast.
 }
 
 func (c *exitClient) PreCall(e *Engine, st *State, call *ast.CallExpr, callee *types.Func) *State {
+	if c.runFuncs[callee] {
+		// the command's work starts: buffered writers created so far have to be flushed after it
+		out := st.WithExt("ran", "1")
+		for k := range st.ext {
+			if strings.HasPrefix(k, "bufflushed:") {
+				out = out.WithExt(k, "")
+			}
+		}
+		return out
+	}
+	if sel, ok := ast.Unparen(call.Fun).(*ast.SelectorExpr); ok && sel.Sel.Name == "Flush" {
+		if k := e.CanonSt(st, sel.X); k.OK && st.Ext("bufw:"+k.Key) == "1" {
+			return st.WithExt("bufflushed:"+k.Key, "1")
+		}
+	}
 	if callee == nil || callee.FullName() != "os.Exit" || e.Lit != nil {
 		return nil
 	}
@@ -726,6 +747,28 @@ func (c *exitClient) Return(e *Engine, st *State, ret *ast.ReturnStmt) {
 		return
 	}
 	if e.Lit != nil {
+		// a buffered writer created on this path before run was called has been flushed since
+		if st.Ext("ran") == "1" {
+			var keys []string
+			for k, v := range st.ext {
+				if strings.HasPrefix(k, "bufw:") && v == "1" {
+					keys = append(keys, strings.TrimPrefix(k, "bufw:"))
+				}
+			}
+			sort.Strings(keys)
+			for _, k := range keys {
+				ok := st.Ext("bufflushed:"+k) == "1"
+				var node ast.Node = e.Lit
+				if ret != nil {
+					node = ret
+				}
+				key := c.fn + " buffered output is flushed after run"
+				e.Site("C16/exit", key, node, ok, "every path from run to the end of the command flushes the buffered writer created before it")
+				if !ok {
+					e.Site("C16/exit", key, node, false, "a buffered writer wrapped around the output before run is not flushed on a path from run to the end of the command (for instance when run reports a failed statement): the SQL of the statements that did compile never reaches standard output")
+				}
+			}
+		}
 		// RunE: a return after run(...) must return the variable carrying run's error (or something non-nil)
 		if ret == nil || len(ret.Results) != 1 {
 			return
